@@ -62,7 +62,7 @@ ASSUMPTIONS = [
   "white-space normalisation: runs of space cells collapse to one space, leading/trailing space cells and empty rows "
   "are ignored; a teletext spacing attribute (00h-07h, 0Ah-0Dh, 1Ch, 1Dh) is a space cell; for codes of which the "
   "statement does not say whether they occupy a cell (80h-85h, and 00h-1Fh in open subtitles) a space is optional",
-  "the background of open subtitles before any background code, the effect of boxing codes on the background, the "
+  "the background of open subtitles before any background code, the effect of the boxing-on code 84h on the background (boxing off, 85h, is taken to end any background), the "
   "alignment for JC 0, the region of cumulative sets and the region for a VP outside 1..rows are not asserted",
   "files the specification does not give a meaning to are executed (the reader must not raise) but nothing else is "
   "asserted: an unterminated extension chain followed by another subtitle, extension block numbers out of order, two "
@@ -333,7 +333,7 @@ def compare_styles(acc, case, ref_lines_all, notes, obs_lines_all, teletext):
       where = "open-newline-carry"
     for ci, (c, (ch, st)) in enumerate(zip(rc, oc)):
       fg, bg, it, ul = c[2]
-      exp = (R.RGB[fg] + (255,), None if bg is None else R.RGB[bg] + (255,), it, ul)
+      exp = (R.RGB[fg] + (255,), None if bg is None else (0, 0, 0, 0) if bg == "transparent" else R.RGB[bg] + (255,), it, ul)
       for k, clause in enumerate(STYLE_CLAUSES):
         if exp[k] is None:
           continue
